@@ -214,6 +214,7 @@ theorem C07.compile_roles (n0 : Nat) (r : Roles) (gop : GOp) (hr : C07.RolesOK n
       | rfl
       | exact hr.2.2.1
       | exact hr.2.2.2
+  | resetCache => exact ⟨rfl, rfl, fun c h => by simp [compile] at h, hr.2.2.2⟩
 
 /-- **No pseudo-data operation targets the stored data.**  With `n0` containers in the store, the stored
 containers among them, and handles that are generated containers, none of the container operations of any
@@ -289,6 +290,7 @@ theorem c07_compile_targets (n0 : Nat) (r : Roles) (gop : GOp) (hr : RolesOK n0 
       rw [hev'] at hop
       rw [mem_setItems hop] at hx; cases hx
       exact hev _ hev'
+  | resetCache => simp [compile] at hop
 
 namespace C07
 
@@ -577,6 +579,7 @@ theorem c07_returned_handle_generated (n0 : Nat) (r : Roles) (gop : GOp) (hr : R
   | evaluate fields =>
     simp only [compile] at hh'
     split at hh' <;> cases hh'
+  | resetCache => simp [compile] at hh'
 
 /-- **Unblinding sees the original data**: after any history of pseudo-data operations, `unblind` (no static fields, no
 selection, no index field) evaluates a container that reads exactly like the experimental data as they were loaded. -/
@@ -725,6 +728,7 @@ theorem compile_rebind (n0 : Nat) (r : Roles) (gop : GOp) (hg : Rebinding gop) :
     cases hev : r.events with
     | none => rw [hev] at hop; cases hop
     | some ev => rw [hev] at hop; exact setItems_rebind op hop
+  | resetCache => simp [compile] at hop
 end C07
 
 /-- **Frame property for data sets whose columns share arrays.**  The stored data need not satisfy "no location in two
@@ -778,3 +782,61 @@ example :
     g.st.conts.map (·.len) = [3, 3, 5, 2, 2, 5] ∧ g.roles.events = some 5 ∧
     (viewAt g.st 5).toOption.map (·.cols.lookup 3) = some (some ⟨.i16, [1, 2, 2, 3, 3]⟩) ∧
     viewAt g.st 0 = viewAt C07.demoG.st 0 ∧ viewAt g.st 1 = viewAt C07.demoG.st 1 := by decide
+
+/-! ### deepening round: histories whose handles come from earlier results -/
+
+/-- the handles an operation takes from the caller are among the available ones -/
+def C07.UsesOnly (avail : List Nat) : GOp → Prop
+  | .merge b _ => b ∈ avail
+  | .initTrial e _ => e ∈ avail
+  | .unblindAdopt _ => False
+  | _ => True
+
+/-- a history in which every handle handed to an operation was returned by an earlier operation of the history
+(or is one of the initially available generated containers) -/
+def C07.Scoped : G → List Nat → List GOp → Prop
+  | _, _, [] => True
+  | g, avail, gop :: rest =>
+    C07.UsesOnly avail gop ∧
+    C07.Scoped (gstep g gop).1 (match (gstep g gop).2 with | some h => h :: avail | none => avail) rest
+
+/-- **Frame property without an assumption on the handles**: in a scoped history the handles are generated containers
+*because* they were returned by earlier operations (`c07_returned_handle_generated`); the stored data read as before. -/
+theorem c07_frame_scoped (g : G) (ts : List Table) (good : Good g.st ts) (hr : RolesOK g.st.conts.length g.roles)
+    (avail : List Nat) (hav : ∀ h ∈ avail, h ≠ g.roles.exp ∧ h ≠ g.roles.mc) (gops : List GOp) (hs : C07.Scoped g avail gops) :
+    viewAt (grun g gops).st g.roles.exp = viewAt g.st g.roles.exp ∧
+    viewAt (grun g gops).st g.roles.mc = viewAt g.st g.roles.mc := by
+  induction gops generalizing g ts avail with
+  | nil => exact ⟨rfl, rfl⟩
+  | cons gop gops ih =>
+    obtain ⟨huse, hrest⟩ := hs
+    have hh : HandlesOK g.roles gop := by
+      cases gop <;> simp only [C07.UsesOnly, HandlesOK] at huse ⊢ <;> first
+        | trivial
+        | exact hav _ huse
+        | exact huse
+    obtain ⟨ts', good', he, hm, hr', re, rm⟩ := C07.gstep_frame g ts good hr gop hh
+    have hret := c07_returned_handle_generated g.st.conts.length g.roles gop hr hh
+    have hav' : ∀ h ∈ (match (gstep g gop).2 with | some h => h :: avail | none => avail),
+        h ≠ (gstep g gop).1.roles.exp ∧ h ≠ (gstep g gop).1.roles.mc := by
+      intro h hmem
+      rw [re, rm]
+      cases hg : (gstep g gop).2 with
+      | none => rw [hg] at hmem; exact hav h hmem
+      | some h0 =>
+        rw [hg] at hmem
+        rcases List.mem_cons.mp hmem with rfl | hmem
+        · exact hret h hg
+        · exact hav h hmem
+    obtain ⟨i1, i2⟩ := ih (gstep g gop).1 ts' good' hr' _ hav' hrest
+    simp only [grun]
+    constructor
+    · rw [← re, i1, re, view_eq good', view_eq good]; unfold getT; rw [he]
+    · rw [← rm, i2, rm, view_eq good', view_eq good]; unfold getT; rw [hm]
+
+/-- non-vacuity: generate, generate signal, merge the returned handles, trial on the merged events — scoped from no handle -/
+example : C07.Scoped C07.demoG [] [.genFixed .uniformRA [⟨.f32, [7, 8, 9]⟩],
+    .genSigMC [2, 0] [(0, ⟨.f32, [1, 1]⟩)] [(3, ⟨.i16, [0, 0]⟩), (0, ⟨.f32, [0, 0]⟩)] [0, 1], .merge 2 4,
+    .initTrial 2 ⟨[], none, none, []⟩, .resetCache] := by
+  simp only [C07.Scoped, C07.UsesOnly]
+  decide
